@@ -1,6 +1,439 @@
+import GrafeoModel.Model.Idx
 import GrafeoModel.Driver.Proto
-/-! stream `idx` (stub; replaced by its builder) -/
-open Grafeo Grafeo.Proto
+
+/-! Stream `idx`: histories of HashIndex / BTreeIndex (i64 and OrderedFloat keys) / TrieIndex
+operations and leapfrog joins, one self-contained history per line. Formats are documented in
+`harness/src/idx.rs`. The `model` column runs `Model/Idx.lean`; the `spec` column runs the
+plain-map / scan / list-intersection specification of the same file. -/
+open Grafeo Grafeo.Proto Grafeo.Idx
 namespace DriverIdx
-def handle (_args : List String) : Option Out := none
+
+def tailS (s : String) : String := String.ofList (s.toList.drop 1)
+def headC (s : String) : Char := s.toList.headD ' '
+
+def u64? (s : String) : Option Nat :=
+  match s.toNat? with
+  | some n => if n < 2 ^ 64 && s.toList.all Char.isDigit then some n else none
+  | none => none
+
+def i64? (s : String) : Option Int :=
+  let body := if headC s == '-' then tailS s else s
+  if body.isEmpty || !(body.toList.all Char.isDigit) then none
+  else match s.toInt? with
+    | some i => if -(2 ^ 63 : Int) ≤ i && i < (2 ^ 63 : Int) then some i else none
+    | none => none
+
+def optS (o : Option Nat) : String :=
+  match o with
+  | none => "~"
+  | some v => toString v
+
+def b01 (b : Bool) : String := if b then "1" else "0"
+
+/-! ### programs over hash / btree indexes -/
+
+inductive POp (K : Type) where
+  | ins (k : K) (v : Nat)
+  | rem (k : K)
+  | get (k : K)
+  | has (k : K)
+  | len
+  | isEmpty
+  | clear
+  | min
+  | max
+  | range (lo hi : Bound K)
+
+def parseBound {K : Type} (pk : String → Option K) (s : String) : Option (Bound K) :=
+  if s == "u" then some .unb
+  else if headC s == 'i' then (pk (tailS s)).map .inc
+  else if headC s == 'e' then (pk (tailS s)).map .exc
+  else none
+
+def parseOp {K : Type} (pk : String → Option K) (ordered : Bool) (s : String) : Option (POp K) :=
+  let c := headC s
+  let r := tailS s
+  if s == "l" then some .len
+  else if s == "e" then some .isEmpty
+  else if s == "x" then some .clear
+  else if s == "m" then (if ordered then some .min else none)
+  else if s == "M" then (if ordered then some .max else none)
+  else if c == 'i' then
+    match r.splitOn ":" with
+    | [k, v] => do
+      let k ← pk k
+      let v ← u64? v
+      pure (.ins k v)
+    | _ => none
+  else if c == 'r' then (pk r).map .rem
+  else if c == 'g' then (pk r).map .get
+  else if c == 'c' then (pk r).map .has
+  else if c == 'R' && ordered then
+    match r.splitOn "_" with
+    | [lo, hi] => do
+      let lo ← parseBound pk lo
+      let hi ← parseBound pk hi
+      pure (.range lo hi)
+    | _ => none
+  else none
+
+def parseProg {K : Type} (pk : String → Option K) (ordered : Bool) (s : String) : Option (List (POp K)) :=
+  if s == "-" then some [] else (s.splitOn ",").mapM (parseOp pk ordered)
+
+def entS {K : Type} (sk : K → String) (e : K × Nat) : String := sk e.1 ++ ":" ++ toString e.2
+def entsS {K : Type} (sk : K → String) (es : List (K × Nat)) : String := joinWith ";" (es.map (entS sk))
+def optEntS {K : Type} (sk : K → String) (o : Option (K × Nat)) : String :=
+  match o with
+  | none => "~"
+  | some e => entS sk e
+
+/-- one op on the BTreeIndex model -/
+def bExec {K : Type} (cmp : K → K → Ordering) (keq : K → K → Bool) (sk : K → String)
+    (t : BT K Nat) : POp K → BT K Nat × String
+  | .ins k v => let r := bInsert cmp t k v; (r.1, optS r.2)
+  | .rem k => let r := bRemove cmp t k; (r.1, optS r.2)
+  | .get k => (t, optS (bGet cmp t k))
+  | .has k => (t, b01 (bContains cmp t k))
+  | .len => (t, toString (bLen t))
+  | .isEmpty => (t, b01 (bLen t == 0))
+  | .clear => (bClear t, ".")
+  | .min => (t, optEntS sk (bMin t))
+  | .max => (t, optEntS sk (bMax t))
+  | .range lo hi =>
+    match bRange cmp keq t lo hi with
+    | none => (t, "!")
+    | some es => (t, "[" ++ entsS sk es ++ "]")
+
+/-- one op on the plain-map specification (Int keys) -/
+def sExec (sk : Int → String) (a : List (Int × Nat)) : POp Int → List (Int × Nat) × String
+  | .ins k v => (sInsert a k v, optS (sGet a k))
+  | .rem k => (sErase a k, optS (sGet a k))
+  | .get k => (a, optS (sGet a k))
+  | .has k => (a, b01 (sGet a k).isSome)
+  | .len => (a, toString (sLen a))
+  | .isEmpty => (a, b01 (sLen a == 0))
+  | .clear => ([], ".")
+  | .min => (a, optEntS sk (sMin a))
+  | .max => (a, optEntS sk (sMax a))
+  | .range lo hi => (a, "[" ++ entsS sk (sRange a lo hi) ++ "]")
+
+def runOps {S O : Type} (step : S → O → S × String) : S → List O → S × List String
+  | s, [] => (s, [])
+  | s, o :: r =>
+    let x := step s o
+    let y := runOps step x.1 r
+    (y.1, x.2 :: y.2)
+
+/-- one op on the HashIndex model -/
+def hExec (m : List (Nat × Nat)) : POp Nat → List (Nat × Nat) × String
+  | .ins k v => let r := hInsert m k v; (r.1, optS r.2)
+  | .rem k => let r := hRemove m k; (r.1, optS r.2)
+  | .get k => (m, optS (hGet m k))
+  | .has k => (m, b01 (hContains m k))
+  | .len => (m, toString (hLen m))
+  | .isEmpty => (m, b01 (hLen m == 0))
+  | .clear => ([], ".")
+  | _ => (m, "?")
+
+def natKeyed (m : List (Nat × Nat)) : List (Int × Nat) := m.map (fun e => ((e.1 : Int), e.2))
+def opToInt {K : Type} (f : K → Int) : POp K → POp Int
+  | .ins k v => .ins (f k) v
+  | .rem k => .rem (f k)
+  | .get k => .get (f k)
+  | .has k => .has (f k)
+  | .len => .len
+  | .isEmpty => .isEmpty
+  | .clear => .clear
+  | .min => .min
+  | .max => .max
+  | .range lo hi =>
+    let g : Bound K → Bound Int := fun b =>
+      match b with
+      | .unb => .unb
+      | .inc k => .inc (f k)
+      | .exc k => .exc (f k)
+    .range (g lo) (g hi)
+
+def addSig (sigs : List String) (s : String) : List String := if sigs.contains s then sigs else sigs ++ [s]
+
+/-- compare per-op results; collect the signatures of the differing ops -/
+def sigsOf (nanLine : Bool) : List String → List String → List String → List String
+  | m :: ms, s :: ss, acc =>
+    let acc :=
+      if m == s then acc
+      else if m == "!" then addSig acc "btree-range-panic"
+      else if nanLine then addSig acc "orderedfloat-nan-equals-everything"
+      else addSig acc "idx-deviation"
+    sigsOf nanLine ms ss acc
+  | _, _, acc => acc
+
+def mkOut (nanLine : Bool) (mres sres : List String) (mdump sdump : String) : Out :=
+  let m := joinWith "," mres ++ "|" ++ mdump
+  let s := joinWith "," sres ++ "|" ++ sdump
+  let sigs := sigsOf nanLine mres sres []
+  let sigs := if mdump == sdump then sigs
+              else addSig sigs (if nanLine then "orderedfloat-nan-equals-everything" else "idx-deviation")
+  { model := m, spec := s, sig := if m == s then "-" else joinWith "+" sigs }
+
+def showI (i : Int) : String := toString i
+
+/-! float keys: canonical bit patterns (−0 ↦ +0, every NaN ↦ the quiet NaN), and the order
+"numeric, NaN greatest" of the specification as an `Int` key -/
+def nanBits : Nat := 0x7ff8000000000000
+def canonF (b : Nat) : Nat := if F64.isNaN b then nanBits else if b == 2 ^ 63 then 0 else b
+def fkeyI (b : Nat) : Int := if F64.isNaN b then (2 ^ 63 : Int) else F64.key b
+def fkeyInv (i : Int) : Nat := if i == (2 ^ 63 : Int) then nanBits else if i ≥ 0 then i.toNat else 2 ^ 63 + (-i).toNat
+def showF (b : Nat) : String := toString (canonF b)
+
+def opKeys {K : Type} : POp K → List K
+  | .ins k _ => [k]
+  | .rem k => [k]
+  | .get k => [k]
+  | .has k => [k]
+  | .range lo hi =>
+    (match lo with | .unb => [] | .inc k => [k] | .exc k => [k]) ++
+    (match hi with | .unb => [] | .inc k => [k] | .exc k => [k])
+  | _ => []
+
+/-- largest number of entries held during a history (model) -/
+def maxLen {K : Type} (cmp : K → K → Ordering) : BT K Nat → List (POp K) → Nat
+  | t, [] => bLen t
+  | t, o :: r =>
+    let t' := match o with
+      | .ins k v => (bInsert cmp t k v).1
+      | .rem k => (bRemove cmp t k).1
+      | .clear => bClear t
+      | _ => t
+    Nat.max (bLen t) (maxLen cmp t' r)
+
+def handleHash (prog : String) : Option Out := do
+  let ops ← parseProg u64? false prog
+  let (m, mres) := runOps hExec [] ops
+  let (a, sres) := runOps (sExec showI) [] (ops.map (opToInt (fun (k : Nat) => (k : Int))))
+  let mdump := entsS showI (sortByKey (natKeyed m))
+  let sdump := entsS showI (sortByKey a)
+  pure (mkOut false mres sres mdump sdump)
+
+def handleBt (prog : String) : Option Out := do
+  let ops ← parseProg i64? true prog
+  let (t, mres) := runOps (bExec icmp ieq showI) BT.empty ops
+  let (a, sres) := runOps (sExec showI) [] ops
+  let mdump := entsS showI t.ents
+  let sdump := entsS showI (sortByKey a)
+  pure (mkOut false mres sres mdump sdump)
+
+def handleBtf (prog : String) : Option Out := do
+  let ops ← parseProg u64? true prog
+  let nanLine := (ops.flatMap opKeys).any F64.isNaN
+  -- a NaN makes the answers depend on the shape of the B-tree; the model covers the single-leaf tree
+  if nanLine && maxLen fcmp BT.empty ops > 11 then none
+  let (t, mres) := runOps (bExec fcmp fkeq showF) BT.empty ops
+  let (a, sres) := runOps (sExec (fun i => toString (fkeyInv i))) [] (ops.map (opToInt fkeyI))
+  let mdump := entsS showF t.ents
+  let sdump := entsS (fun i => toString (fkeyInv i)) (sortByKey a)
+  pure (mkOut nanLine mres sres mdump sdump)
+
+/-! ### trie -/
+
+def parsePath (s : String) : Option (List Nat) :=
+  if s == "" then some [] else (s.splitOn ".").mapM u64?
+
+def parseTrieInsE (s : String) : Option (List Nat × Nat) :=
+  if headC s == 'E' then
+    match (tailS s).splitOn "=" with
+    | [p, e] => do
+      let p ← parsePath p
+      let e ← u64? e
+      if p.length != 2 then none
+      pure (p, e)
+    | _ => none
+  else
+    match s.splitOn "=" with
+    | [p, e] => do
+      let p ← parsePath p
+      let e ← u64? e
+      pure (p, e)
+    | _ => none
+
+def dotList (xs : List Nat) : String := joinWith "." (xs.map toString)
+def brk (xs : List String) : String := "[" ++ joinWith "." xs ++ "]"
+
+inductive WStep where
+  | next | seek (t : Nat) | key | valid | open
+
+def parseStep (s : String) : Option WStep :=
+  if s == "n" then some .next
+  else if s == "k" then some .key
+  else if s == "v" then some .valid
+  else if s == "o" then some .open
+  else if headC s == 's' then (u64? (tailS s)).map .seek
+  else none
+
+def parseSteps (s : String) : Option (List WStep) :=
+  if s == "" then some [] else (s.splitOn ".").mapM parseStep
+
+/-- walk program on the model iterator -/
+def walkM : TIter → List WStep → List String
+  | _, [] => []
+  | it, .next :: r => let x := it.next; b01 x.2 :: walkM x.1 r
+  | it, .seek t :: r => let x := it.seek t; b01 x.2 :: walkM x.1 r
+  | it, .key :: r => optS it.key :: walkM it r
+  | it, .valid :: r => b01 it.isValid :: walkM it r
+  | it, .open :: r =>
+    match it.open with
+    | none => ["~"]
+    | some c => "1" :: walkM c r
+
+/-- walk program on the specification: (path, remaining keys) over the inserted-path list -/
+def walkS (h : List (List Nat × Nat)) : List Nat → List Nat → List WStep → List String
+  | _, _, [] => []
+  | p, rem, .next :: r =>
+    match rem with
+    | [] => "0" :: walkS h p [] r
+    | _ :: tl => b01 (!tl.isEmpty) :: walkS h p tl r
+  | p, rem, .seek t :: r =>
+    let rem' := rem.filter (fun k => decide (t ≤ k))
+    b01 (!rem'.isEmpty) :: walkS h p rem' r
+  | p, rem, .key :: r => optS rem.head? :: walkS h p rem r
+  | p, rem, .valid :: r => b01 (!rem.isEmpty) :: walkS h p rem r
+  | p, rem, .open :: r =>
+    match rem with
+    | [] => ["~"]
+    | k :: _ =>
+      match sTrieKeys h (p ++ [k]) with
+      | none => ["~"]
+      | some ks => "1" :: walkS h (p ++ [k]) ks r
+
+def trieQuery (h : List (List Nat × Nat)) (t : Trie) (q : String) : Option (String × String) :=
+  let c := headC q
+  let r := tailS q
+  if q == "l" then some (toString t.len, toString h.length)
+  else if q == "z" then some (b01 (t.len == 0), b01 h.isEmpty)
+  else if c == 'g' then do
+    let p ← parsePath r
+    let f : Option (List Nat) → String := fun o => match o with | none => "~" | some es => dotList es
+    pure (f (t.get p), f (sTrieGet h p))
+  else if c == 'k' then do
+    let p ← parsePath r
+    let m := match (if p.isEmpty then some t.iter else t.iterAt p) with
+      | none => "~"
+      | some it => brk ((itEnum (it.keys.length + 1) it).map toString)
+    let s := match sTrieKeys h p with
+      | none => "~"
+      | some ks => brk (ks.map toString)
+    pure (m, s)
+  else if c == 'w' then
+    match r.splitOn "/" with
+    | [p, st] => do
+      let p ← parsePath p
+      let st ← parseSteps st
+      let m := match t.iterAt p with
+        | none => "~"
+        | some it => brk (walkM it st)
+      let s := match sTrieKeys h p with
+        | none => "~"
+        | some ks => brk (walkS h p ks st)
+      pure (m, s)
+    | _ => none
+  else none
+
+def handleTrie (ins qs : String) : Option Out := do
+  let h ← if ins == "-" then some [] else (ins.splitOn ";").mapM parseTrieInsE
+  let t := Trie.build h
+  let rs ← if qs == "-" then some [] else (qs.splitOn ";").mapM (trieQuery h t)
+  let m := if rs.isEmpty then "-" else joinWith ";" (rs.map (·.1))
+  let s := if rs.isEmpty then "-" else joinWith ";" (rs.map (·.2))
+  pure { model := m, spec := s, sig := if m == s then "-" else "trie-deviation" }
+
+/-! ### leapfrog -/
+
+def parseList (s : String) : Option (List Nat) :=
+  if s == "-" then some [] else (s.splitOn ",").mapM u64?
+
+def enumFrom (n : Nat) : List Nat → List (Nat × Nat)
+  | [] => []
+  | x :: r => (x, n) :: enumFrom (n + 1) r
+
+def listTrie (l : List Nat) : Trie := Trie.build ((enumFrom 0 l).map (fun kj => ([kj.1], kj.2)))
+
+/-- `k` / `n` program on the model join -/
+def lfProgM : LF → List Char → List String
+  | _, [] => []
+  | j, 'k' :: r => optS j.key :: lfProgM j r
+  | j, _ :: r => let x := j.next; b01 x.2 :: lfProgM x.1 r
+
+/-- the same program on the specification: the remaining intersection -/
+def lfProgS : List Nat → List Char → List String
+  | _, [] => []
+  | rem, 'k' :: r => optS rem.head? :: lfProgS rem r
+  | rem, _ :: r =>
+    match rem with
+    | [] => "0" :: lfProgS [] r
+    | _ :: tl => b01 (!tl.isEmpty) :: lfProgS tl r
+
+def handleLf (ls prog : String) : Option Out := do
+  let lists ← if ls == "none" then some [] else (ls.splitOn ";").mapM parseList
+  let j := LF.new (lists.map (fun l => (listTrie l).iter))
+  let inter := sInter (lists.map (fun l => isort (dedupNat l)))
+  if prog == "a" then
+    let m := brk ((lfEnum (lfEnumFuel j) j).map toString)
+    let s := if lists.isEmpty then "-" else brk (inter.map toString)
+    pure { model := m, spec := s, sig := if s == "-" || m == s then "-" else "leapfrog-deviation" }
+  else if prog.toList.all (fun c => c == 'k' || c == 'n') && !prog.isEmpty then
+    let m := joinWith "." (lfProgM j prog.toList)
+    let s := if lists.isEmpty then "-" else joinWith "." (lfProgS inter prog.toList)
+    pure { model := m, spec := s, sig := if s == "-" || m == s then "-" else "leapfrog-deviation" }
+  else none
+
+def parseEdge (s : String) : Option (Nat × Nat) :=
+  match s.splitOn "." with
+  | [a, b] => do
+    let a ← u64? a
+    let b ← u64? b
+    pure (a, b)
+  | _ => none
+
+def parseEdges (s : String) : Option (List (Nat × Nat)) :=
+  if s == "-" then some [] else (s.splitOn ";").mapM parseEdge
+
+def edgeHist : Nat → List (Nat × Nat) → List (List Nat × Nat)
+  | _, [] => []
+  | n, (a, b) :: r => ([a, b], n) :: edgeHist (n + 1) r
+
+/-- two-level leapfrog trie join on the model -/
+def lf2Loop : Nat → LF → List String
+  | 0, _ => []
+  | f + 1, j =>
+    match j.key with
+    | none => []
+    | some k =>
+      let e := match j.open with
+        | none => toString k ++ ":~"
+        | some cs => let c := LF.new cs; toString k ++ ":" ++ brk ((lfEnum (lfEnumFuel c) c).map toString)
+      let r := j.next
+      if r.2 then e :: lf2Loop f r.1 else [e]
+
+def handleLf2 (ts : String) : Option Out := do
+  let tries ← (ts.splitOn "|").mapM parseEdges
+  let j := LF.new (tries.map (fun es => (Trie.build (edgeHist 0 es)).iter))
+  let ms := lf2Loop (lfEnumFuel j) j
+  let top := sInter (tries.map (fun es => isort (dedupNat (es.map (·.1)))))
+  let ss := top.map (fun k =>
+    let inner := sInter (tries.map (fun es =>
+      isort (dedupNat ((es.filter (fun e => e.1 == k)).map (·.2)))))
+    toString k ++ ":" ++ brk (inner.map toString))
+  let m := if ms.isEmpty then "-" else joinWith ";" ms
+  let s := if ss.isEmpty then "-" else joinWith ";" ss
+  pure { model := m, spec := s, sig := if m == s then "-" else "leapfrog-deviation" }
+
+def handle (args : List String) : Option Out :=
+  match args with
+  | ["hash", p] => handleHash p
+  | ["bt", p] => handleBt p
+  | ["btf", p] => handleBtf p
+  | ["trie", i, q] => handleTrie i q
+  | ["lf", l, p] => handleLf l p
+  | ["lf2", t] => handleLf2 t
+  | _ => none
+
 end DriverIdx
